@@ -112,7 +112,7 @@ func GenOps(rt *rapid.T, n, minLen, maxLen int) []Op {
 				guess[x] = p
 			}
 		case 10:
-			ops = append(ops, Op{Kind: "read_key_change", Actor: manager("a")})
+			ops = append(ops, Op{Kind: rapid.SampledFrom([]string{"read_key_change", "read_key_change", "read_key_change_altenc"}).Draw(rt, "rk"), Actor: manager("a")})
 		case 11:
 			ops = append(ops, Op{Kind: rapid.SampledFrom([]string{"invite_revoke", "invite_revoke_rotate", "invite_change"}).Draw(rt, "k"), Actor: manager("a"), Ref: rapid.IntRange(-2, 3).Draw(rt, "r"), Perm: goodPerm.Draw(rt, "p")})
 		case 12:
